@@ -71,6 +71,7 @@ type lifeScenario struct {
 	DoubleCloseErr bool          // server-side connections fail a second Close, as real sockets do
 	SecondServe    string        // "" | "cancel" | "shutdown": after a serving that ended by context cancellation the same Server value serves again on a new listener, and that serving is ended this way
 	LongSession    bool          // the lifecycle action comes only after 26-30 simulated seconds: connections that stay silent are closed by the server's idle limit first
+	ManyClients    bool          // some 300 short-lived connections before the lifecycle action
 	SameAddr       bool          // every connection reports the same remote address (as on a net.Pipe or unix-socket listener): callbacks cannot tell connections apart, per-connection callback oracles become totals
 	Race           bool
 }
@@ -201,6 +202,30 @@ func genC17(t *Tape) *lifeScenario {
 		}
 		sc.Clients = append(sc.Clients, cl)
 	}
+	if t.Chance(1, 150) {
+		// a long-lived server: some 300 clients come, ask once and go, one after the other (with a few overlapping), before
+		// the lifecycle action; two stay connected to the end
+		sc.ManyClients = true
+		sc.Clients = nil
+		n := 265 + t.Choose(60)
+		for c := 0; c < n; c++ {
+			r, ok := genValidSrvReq(t, []byte{3, 4, 1}[c%3], byte(1+c%200), tid)
+			tid++
+			if !ok {
+				continue
+			}
+			cl := lifeClient{Delay: time.Duration(c)*700*time.Microsecond + time.Duration(t.Choose(900))*time.Microsecond}
+			cl.Ops = append(cl.Ops, lifeOp{Kind: "req", Frame: r.Frame, TID: r.TID})
+			if c >= n-2 {
+				cl.Ops = append(cl.Ops, lifeOp{Kind: "hold"})
+			} else {
+				cl.Ops = append(cl.Ops, lifeOp{Kind: "close"})
+			}
+			sc.Clients = append(sc.Clients, cl)
+		}
+		sc.Trigger, sc.TriggerDelay = "time", 0
+		sc.ActionAt = time.Duration(n)*700*time.Microsecond + 80*time.Millisecond
+	}
 	if t.Chance(1, 4) {
 		sc.RejectEvery = 1 + t.Choose(3)
 	}
@@ -216,7 +241,7 @@ func genC17(t *Tape) *lifeScenario {
 	sc.WriteDelay = []time.Duration{0, 0, time.Millisecond, 15 * time.Millisecond}[t.Choose(4)]
 	sc.DoubleCloseErr = t.Choose(2) == 1
 	sc.SameAddr = t.Choose(5) == 0
-	if t.Chance(1, 40) {
+	if !sc.ManyClients && t.Chance(1, 40) {
 		sc.LongSession = true
 		sc.Trigger, sc.TriggerDelay = "time", 0
 		sc.ActionAt = time.Duration(26000+t.Choose(4000)) * time.Millisecond
@@ -305,7 +330,7 @@ func runLife(rc *RunCtx, sc *lifeScenario, seed uint64) *lifeOutcome {
 	s := NewSim(rc.Sched)
 	s.Tracing = rc.Tracing
 	s.Free = sc.Race
-	if sc.LongSession {
+	if sc.LongSession || sc.ManyClients {
 		s.MaxSteps = 600000
 	}
 	out := &lifeOutcome{CloseCB: map[string]int{}, CloseCBFlag: map[string]bool{}, HandlerStart: map[uint16]int{}, HandlerEnd: map[uint16]int{}, Aborted: map[uint16]bool{},
